@@ -8,6 +8,9 @@ from . import translate as T
 
 
 def run(rep, prog, tier):
+    from .hidden import no_hidden_state
+    rep.rule('R07.state', 'no hidden state in the anchored modules: no function writes a module-level object, no caching decorator / cached property')
+    no_hidden_state(rep, 'R07.state', prog, ['Circuit/circuit.py', 'Circuit/transformers.py', 'Circuit/components.py', 'Network/elements.py', 'SignalProcessing/periodic_functions.py'])
     rep.rule('R07.exhaustive', 'every kind constructible in Circuit/components.py (minus ground) is a key of the dispatch table `transformers`')
     rep.rule('R07.keys', 'per kind: value keys read by the translator are written by the constructor, and every stored constructor parameter reaches the branch')
     rep.rule('R07.identity', 'every returning path of every translator yields Branch(c.nodes[0], c.nodes[1], element(name=c.id))')
